@@ -495,13 +495,13 @@ Section WithEnv.
     | r => r
     end.
 
-  (* push_from_cache: LIFO *)
+  (* push_from_cache: the cached packets are replayed in arrival order (VecDeque::pop_front, D43) *)
   Fixpoint drain_cache (cache : list apkt) (o : objrecv) (c : ctx) : objrecv * ctx :=
     match cache with
     | [] => (o, c)
     | p :: rest =>
       (* the popped packet is removed before it is pushed; error() clears what remains *)
-      let o0 := mk_or (r_state o) (r_toi o) (r_oti o) (rev rest) (r_cache_size o) (r_max o) (r_blocks o) (r_off o)
+      let o0 := mk_or (r_state o) (r_toi o) (r_oti o) rest (r_cache_size o) (r_max o) (r_blocks o) (r_off o)
                       (r_tlen o) (r_cenc o) (r_md5 o) (r_md5chk o) (r_al o) (r_as o) (r_nal o) (r_writer o)
                       (r_bw o) (r_fdt_id o) (r_nb_alloc o) (r_alloc_size o) (r_clen o) (r_nocache o) in
       match push_to_block p o0 c with
@@ -523,7 +523,7 @@ Section WithEnv.
   Definition push_from_cache (o : objrecv) (c : ctx) : objrecv * ctx :=
     if cache_replay_blocked o then (o, c)
     else
-      let (o1, c1) := drain_cache (rev (r_cache o)) o c in
+      let (o1, c1) := drain_cache (r_cache o) o c in
       (mk_or (r_state o1) (r_toi o1) (r_oti o1) (r_cache o1) 0 (r_max o1) (r_blocks o1) (r_off o1)
              (r_tlen o1) (r_cenc o1) (r_md5 o1) (r_md5chk o1) (r_al o1) (r_as o1) (r_nal o1) (r_writer o1)
              (r_bw o1) (r_fdt_id o1) (r_nb_alloc o1) (r_alloc_size o1) (r_clen o1) (r_nocache o1), c1).
